@@ -19,7 +19,7 @@ RULE = ('exhaustive units: every pair of method subsets of {GET,HEAD,POST,PUT,AN
         'Non-trivial = the dispatch needed a fallback, a 405 or a case conversion; distinct = distinct (table, verb, path).')
 PYOPT = {'quick': 1, 'thorough': 1}     # one unit of every kind is also served by an interpreter started with -O (assert statements compiled out)
 REQUIRED = ['units_run_under_python_-O', 'own_verb', 'head_to_get', 'to_any', 'head_to_any', 'status_405', 'status_404', 'allow_compared', 'lowercase_request_verb',
-            'lowercase_registration', 'rejected_duplicate', 'overwritten', 'removed_method', 'head_no_body', 'resolve_compared', 'empty_table_405', 'respelled_rule', 'candidates_given_as_a_tuple', 'removed_names_given_as_a_tuple']
+            'lowercase_registration', 'rejected_duplicate', 'overwritten', 'removed_method', 'head_no_body', 'resolve_compared', 'empty_table_405', 'method_names_given_as_a_one_shot_iterator', 'paths_ending_in_a_truncated_utf8_sequence', 'respelled_rule', 'candidates_given_as_a_tuple', 'removed_names_given_as_a_tuple']
 EXHAUSTIVE = {'quick': False, 'thorough': True,
               'quick_note': 'complete for one route: all 32 method subsets x 9 verbs x 4 paths',
               'thorough_note': 'complete for two routes: all 32x32 pairs of method subsets x 9 verbs x 4 paths'}
@@ -82,7 +82,13 @@ class World:
             if via == 'shortcut':
                 getattr(self.app, methods.lower())(spelled, overwrite=overwrite)(h)   # decorator form of the shortcut
             else:
-                self.app.route(spelled, methods, h, overwrite=overwrite)
+                given = methods
+                if isinstance(methods, list):
+                    # any iterable of names will do: a list, a tuple, a one-shot iterator
+                    given = (methods, tuple(methods), (m for m in methods), map(str, methods))[self.hid % 4]
+                    if self.hid % 4 >= 2:
+                        ctx.count('method_names_given_as_a_one_shot_iterator')
+                self.app.route(spelled, given, h, overwrite=overwrite)
             accepted = True
         except Exception as e:  # noqa
             accepted = False
@@ -128,6 +134,23 @@ class World:
         for m in method:
             if tbl.pop(m, None) is not None:
                 ctx.count('removed_method')
+
+
+def probe_undecodable(ctx, w, rule_paths, verbs, wit_fn):
+    """The path of a route followed by bytes that are not UTF-8 (a lone Latin-1 byte, a multi-byte sequence cut short at the very end):
+    that is no path of any route - neither a handler nor a 405 with the route's methods, but the framework's 400."""
+    for rule, path in rule_paths:
+        if rule is None:
+            continue
+        for tail in ('\xe9', '\xc3', '\xf0\x9f\x98', '\xe2\x82', 'x\xc3'):
+            for verb in verbs:
+                del w.calls[:]
+                r = call_app(w.app, make_environ(verb, '/x', raw_path=path + tail))
+                ctx.count('paths_ending_in_a_truncated_utf8_sequence')
+                if r.escaped is not None or r.problems or r.code != 400 or w.calls:
+                    ctx.violation(f'undecodable-path-answered-{r.code}', f'{verb} {path!r}+{tail!r} with table {w.tables.get(rule)}: {r.status} handlers {w.calls} Allow {r.header("Allow")}',
+                                  wit_fn(verb, path + tail))
+                    return
 
 
 def probe(ctx, w, rule_paths, verbs, wit_fn, sample=False):
@@ -235,6 +258,8 @@ def exh_unit(ctx, unit):
             paths = [(r if w.tables.get(r) else None, p) for r, p in PATHS]
             probe(ctx, w, paths, VERBS, lambda verb, path: {'unit': {'kind': 'exh1', 's1': s1, 's2': s2, 'verb': verb, 'path': path}},
                   sample=(s1 % 7 == 3))
+            if (s1 + s2) % 4 == 0:
+                probe_undecodable(ctx, w, paths, ['GET', 'POST', 'HEAD'], lambda verb, path: {'unit': {'kind': 'note', 's1': s1, 's2': s2, 'verb': verb, 'raw_path': path}})
 
 
 OPS_RULES = ['/r1', '/w/<x>', '/r1/sub', '/w/<x>/tail']
